@@ -185,6 +185,15 @@ func (o *functionOperator) Next(ctx context.Context) ([]model.StepVector, error)
 	}
 
 	if len(vectors) == 0 {
+		// Evaluate the scalar arguments to their end: an error in them fails the query.
+		for i := range o.nextOps {
+			if i == o.vectorIndex {
+				continue
+			}
+			if err := model.Drain(ctx, o.nextOps[i], nil); err != nil {
+				return nil, err
+			}
+		}
 		return nil, nil
 	}
 
